@@ -762,3 +762,66 @@ def u_items_where(W, sk):
         if x.values[idx] > thr:
             want.append(tuple(str(d.items[i]) for d, i in zip(dims, idx)))
     W.prove("items_where.exactly_the_true_labels", sorted(rows) == sorted(want) and len(rows) == len(set(rows)), detail=f"got {rows[:4]} want {want[:4]}")
+
+
+# ----------------------------------------------------------------------------------------
+# callee contracts as stubs (modular verification of callers of the arithmetic operators)
+
+
+def materialize(W, L, name="unnamed"):
+    """a fresh FlodymArray whose entries are given by the label-level description L (symbolic world)"""
+    from flodym.flodym_arrays import FlodymArray
+    from fvc import symnp
+    from fvc.core import to_real, wrap
+    from .dimensions import mk_set
+
+    dims = [L.dims[l] for l in L.letters]
+    shape = [W.size_of(d) for d in dims]
+    letters = L.letters
+    vals = symnp.SymArr.fresh(shape, lambda idx: to_real(L.at(dict(zip(letters, [wrap(i) if not isinstance(i, int) else i for i in idx])))))
+    return FlodymArray.model_construct(dims=mk_set(W, dims), values=vals, name=name)
+
+
+def operator_contract_stubs(W):
+    """(owner, attribute, stub) triples: +, -, unary -, reflected + of FlodymArray replaced by their *contracts*
+    (precondition: operand is a FlodymArray or a number; result: the label-level specification proved for the
+    real operators in arrays.binop / arrays.scalar_and_unary).  Only meaningful in the symbolic world."""
+    from numbers import Number
+    from flodym.flodym_arrays import FlodymArray
+
+    if not W.symbolic:
+        return []
+
+    def as_operand(x, y):
+        if isinstance(y, FlodymArray):
+            return y
+        if isinstance(y, Number):
+            X = SL.lab(W, x)
+            return ("const", y)
+        raise AssertionError("Can only perform operations between two FlodymArrays or FlodymArray and scalar.")
+
+    def binop(op):
+        def stub(self, other):
+            W.called_stubs.append(f"FlodymArray.{op}")
+            o = as_operand(self, other)
+            if isinstance(o, tuple):
+                X = SL.lab(W, self)
+                c = o[1]
+                f = (lambda a: a + c) if op == "add" else (lambda a: a - c)
+                return materialize(W, SL.Lab(W, X.letters, X.dims, lambda asg: f(X.at(asg))))
+            return materialize(W, spec_intersect_op(W, op, self, o))
+
+        return stub
+
+    def neg(self):
+        W.called_stubs.append("FlodymArray.__neg__")
+        X = SL.lab(W, self)
+        return materialize(W, SL.Lab(W, X.letters, X.dims, lambda asg: -X.at(asg)))
+
+    add = binop("add")
+    return [
+        (FlodymArray, "__add__", add),
+        (FlodymArray, "__sub__", binop("sub")),
+        (FlodymArray, "__neg__", neg),
+        (FlodymArray, "__radd__", lambda self, other: add(self, other)),
+    ]
